@@ -51,6 +51,8 @@ func depsFor(prop string) []string {
 		return []string{"C18"}
 	case "C16":
 		return []string{"C18", "C19"}
+	case "C08":
+		return []string{"C09", "C10", "C16", "C18", "C19"}
 	case "C17":
 		return []string{"C19"}
 	}
@@ -132,6 +134,15 @@ func checkProperty(prop string, tier int, tierName string, re *regexp.Regexp, cf
 	for _, p := range props {
 		propCfgs[p] = map[string]bool{}
 		pc := configsFor(p, tier)
+		if prop == "C08" && p != "C08" {
+			// every leaf suite is re-run per configuration; the limb-level leaves depend only on the layout and
+			// the width of int, the group-level ones also on the selector / conditional-move variant
+			if p == "C18" || p == "C19" {
+				pc = []string{"default", "force32bit", "386"}
+			} else {
+				pc = configsFor("C08", tier)
+			}
+		}
 		if cfgOverride != "" {
 			pc = strings.Split(cfgOverride, ";")
 		}
